@@ -95,19 +95,20 @@ CLAIMED['C12'] = dict(
     ref='DESIGN.md section 7 C12')
 CLAIMED['C13'] = dict(
     engine='E-node',
-    text='Rocq: for all event sequences a container can only be linked as running/<its instance>, cleanup/<its '
-         'instance>, cleanup/<its own name> (C13_one_link_partial); handler theorems for every state (deleted event '
-         'hands over, other handlers keep running links, created configures the current generation); for an instance '
-         'with a single (or no) container directory a resynchronisation keeps the unchanged running container, hands '
-         'over the uncached one, never starts a flagged one and leaves the instance running exactly when it is '
-         'configurable. The full statement is refuted for the unchanged code by five machine-checked witnesses '
-         '(naming mismatch; late created event; stale deleted event; resync with two generations; manifest replaced '
-         'while the manager is down), each reproduced on the real code and listed in known_findings.json.',
-    note='Partial: the full-strength theorems do not hold for the code as it is; the oracle reports the violations by '
-         'signature. Links as finite maps; unique names as (instance, file id) (C15); handler calls atomic; inotify '
-         'simulated as a FIFO; configure/supervisor/runtime stubbed; supervisor reactions and delivery points are inputs.',
-    technique='Rocq proof (invariant by induction over op sequences + per-instance frame lemma) + refutation '
-              'witnesses by vm_compute + differential correspondence after every op',
+    text='Rocq, for all event sequences (every reachable state, every iteration order), on the code repaired by the '
+         'fix: commits b126fcb/dd3f365/97f6b62: C13_unchanged_stays (an unchanged running container is left running by '
+         'every handler call, including stale deleted events and a resynchronisation with several generations), '
+         'C13_no_restart_finished (a container with exitinfo/aborted/oom that is not running is started by no handler '
+         'call), C13_sync_running (after a resynchronisation the running link of every instance is exactly '
+         'expected_running), C13_sync_configures_new, C13_gone_to_cleanup_event/_sync, C13_one_link_partial '
+         '(link-shape invariant). "At most one link" is refuted by the naming mismatch (C13_one_link_refuted, known '
+         'finding D1) and a finished container is re-created after its cleanup while the placement exists '
+         '(C13_finished_recreated_refuted, known finding D5).',
+    note='Links as finite maps; unique names as (instance, file id) (C15); handler calls atomic; inotify simulated as a '
+         'FIFO; configure/supervisor/runtime stubbed; supervisor reactions and delivery points are inputs; '
+         'C13_gone_to_cleanup_sync assumes the cached generation\'s directory does not exist yet.',
+    technique='Rocq proof (invariant by induction over op sequences, per-instance projection of _synchronize) + '
+              'refutation witnesses by vm_compute + differential correspondence after every op',
     ref='DESIGN.md section 7 C13')
 CLAIMED['C14'] = dict(
     engine='E-own',
